@@ -1,4 +1,5 @@
 import Spok.Judge.Find
+import Spok.Lemmas.Find
 /-! # Property C17 — spokfile discovery terminates and finds the nearest enclosing spokfile
 
 *Termination.*  `Find.findUp` is a structural recursion on the component list of `start`
@@ -13,39 +14,7 @@ ancestor; a start directory that is itself above `stop` yields "none found". -/
 namespace Spok.Props.C17
 open Spok.Find Spok.Judge
 
-/-! ## prefixes -/
-
-theorem isAbove_iff {d o : Dir} : isAbove d o = true ↔ d <+: o ∧ d.length < o.length := by
-  simp [isAbove, List.isPrefixOf_iff_prefix]
-
-/-- whatever is above something above `stop` is above `stop` -/
-theorem isAbove_of_prefix {d d' stop : Dir} (h : isAbove d stop = true) (hp : d' <+: d) :
-    isAbove d' stop = true := by
-  rw [isAbove_iff] at *
-  exact ⟨hp.trans h.1, Nat.lt_of_le_of_lt hp.length_le h.2⟩
-
-theorem upsRev_prefix (r : List String) : ∀ d ∈ upsRev r, d <+: r.reverse := by
-  induction r with
-  | nil => simp [upsRev]
-  | cons c up ih =>
-    intro d hd
-    simp only [upsRev, List.mem_cons] at hd
-    rcases hd with rfl | hd
-    · exact List.prefix_refl _
-    · have := ih d hd
-      rw [List.reverse_cons]
-      exact this.trans (List.prefix_append _ _)
-
-theorem prefix_mem_upsRev (r : List String) : ∀ d, d <+: r.reverse → d ∈ upsRev r := by
-  induction r with
-  | nil => intro d hd; simp at hd; simp [upsRev, hd]
-  | cons c up ih =>
-    intro d hd
-    rw [List.reverse_cons, List.prefix_concat_iff] at hd
-    simp only [upsRev, List.mem_cons]
-    rcases hd with hd | hd
-    · left; simp [hd]
-    · right; exact ih d hd
+/-! ## the candidates -/
 
 /-- `ancestors start` are exactly the directories at or above `start` … -/
 theorem mem_ancestors {start d : Dir} : d ∈ ancestors start ↔ d <+: start := by
@@ -67,38 +36,6 @@ theorem ancestors_nearest_first (start : Dir) :
     have := (upsRev_prefix up d hd).length_le
     simp at this ⊢
     omega
-
-/-! ## the loop computes the specification -/
-
-theorem findUp_spec (fs : FS) (stop : Dir) (r : List String) :
-    findUp fs stop r =
-      match (upsRev r).find? (candidate fs stop) with
-      | some d => .found d
-      | none => .notFound := by
-  induction r with
-  | nil =>
-    simp only [findUp, upsRev, List.find?_cons, List.find?_nil, candidate]
-    cases isAbove [] stop <;> cases hasSpokfile (fs []) <;> simp
-  | cons c up ih =>
-    have rest_above : isAbove up.reverse stop = true →
-        (upsRev up).find? (candidate fs stop) = none := by
-      intro h
-      rw [List.find?_eq_none]
-      intro d hd
-      simp [candidate, isAbove_of_prefix h (upsRev_prefix up d hd)]
-    have hpre : up.reverse <+: up.reverse ++ [c] := List.prefix_append _ _
-    have hlen : up.reverse.length < (up.reverse ++ [c]).length := by simp
-    simp only [findUp, upsRev, List.find?_cons, List.reverse_cons]
-    generalize up.reverse ++ [c] = start at hpre hlen ⊢
-    by_cases h1 : isAbove start stop = true
-    · simp [candidate, h1, rest_above (isAbove_of_prefix h1 hpre)]
-    · by_cases h2 : hasSpokfile (fs start) = true
-      · simp [candidate, h1, h2]
-      · by_cases h3 : start = stop
-        · subst h3
-          have hab : isAbove up.reverse start = true := isAbove_iff.2 ⟨hpre, hlen⟩
-          simp [candidate, h1, h2, rest_above hab]
-        · simp [candidate, h1, h2, h3, ih]
 
 /-- **C17.**  For every file system, start and stop, `Find` returns the regular file `spokfile` of the
     nearest directory at or above `start` that is not a strict ancestor of `stop`, and otherwise
